@@ -238,8 +238,8 @@ type Options struct {
 	MaxEvents     uint64   // cap on the product (0 = 1<<24)
 	MaxIssues     int      // per policy
 	SkipDecision  bool
-	Staged        bool // assemble the policy value in an earlier shape first (see CompileAfter)
-	StagedVariant int // modulo 3: 0 and 1 are the EarlierShape variants, 2 = the same value compiled for another architecture first
+	Staged        bool            // assemble the policy value in an earlier shape first (see CompileAfter)
+	StagedVariant int             // modulo 3: 0 and 1 are the EarlierShape variants, 2 = the same value compiled for another architecture first
 	Prior         *seccomp.Policy // explicit earlier shape (implies Staged)
 }
 
